@@ -685,6 +685,14 @@ func (c *FuncCtx) assumeInv(st *State, li *loopInfo, inv []*Clause) {
 		v := c.evalSpecAt(st, cl.Expr, li.pos, li.extra)
 		st.assume(v.S)
 	}
+	// vacuity guard: the loop head (invariants assumed) must be reachable
+	if !c.coveredLoops[li.ord] && c.contract != nil {
+		if c.coveredLoops == nil {
+			c.coveredLoops = map[int]bool{}
+		}
+		c.coveredLoops[li.ord] = true
+		c.obls = append(c.obls, &Obligation{Fn: c.key, Name: fmt.Sprintf("%s.cover.loop%d", c.key, li.ord), Kind: "cover", Pos: c.eng.posStr(li.pos), Tags: c.props, PC: st.pc, Goal: tFalse, ctx: c, Text: "loop head is reachable with the invariants assumed"})
+	}
 }
 
 func (c *FuncCtx) havocLoop(st *State, li *loopInfo) {
